@@ -182,6 +182,20 @@ def explore_onestep(case):
                     if dt == 0 and maxabs(x1 - x0) > 1e-14 * (1 + maxabs(x0)):
                         res.fail(site=config, clause="dt_zero_is_identity", cls="dt=0", detail=dict(x0=x0, a=a, w=w, g=g, x1=x1),
                                  sub="onestep", case=case)
+    # the function is also called by argument name (dict / keyword calls, name-based binding of generated code)
+    if config == "strapdown_quat":
+        names = [f.name_in(i) for i in range(f.n_in())]
+        res.count("evaluations")
+        if names != ["x0", "a_b", "omega_b", "g", "dt"] or [f.name_out(i) for i in range(f.n_out())] != ["x1"]:
+            res.fail(site=config, clause="documented_argument_names", cls="-", detail=dict(names_in=names), sub="onestep", case=case)
+        else:
+            a, w = A_MENU[2], W_MENU[2]
+            for x0 in x0s:
+                res.count("evaluations")
+                x1 = np.array(f(x0=x0, a_b=a, omega_b=w, g=9.8, dt=dt)["x1"], dtype=float).reshape(-1)
+                p0, v0, R0 = split(config, x0)
+                pr, vr, Rr = ref_step(p0, v0, R0, a, w, 9.8, dt)
+                judge(res, config, x1, pr, vr, Rr, 1.0, "keyword_call_exact_flow", dict(x0=x0, a=a, w=w, g=9.8, dt=dt, cls="keyword"), case)
     res.samples.append(dict(config=config, dt=dt, n_w=len(ws)))
     return res
 
